@@ -411,6 +411,33 @@ fn run(ctx: &mut Ctx) {
                 rendered.push((Re::Cat(Box::new(Re::Lit(b'.')), Box::new(with_slash)), format!("\\.{s}")));
             }
         }
+        // a third way for ASTs whose top node is an alternation: the alternation stays at the top level of
+        // the pattern, every alternative carrying the prefix itself (\./A\|\./B — same language as \./\(A\|B\))
+        let alt_word = match syn {
+            Syn::Ere => Some("|"),
+            Syn::Emacs | Syn::Grep => Some("\\|"),
+            Syn::Bre => None,
+        };
+        if let Some(alt_word) = alt_word {
+            fn flatten<'a>(r: &'a Re, out: &mut Vec<&'a Re>) {
+                match r {
+                    Re::Alt(a, b) => {
+                        flatten(a, out);
+                        flatten(b, out);
+                    }
+                    x => out.push(x),
+                }
+            }
+            for r in all.iter().chain(deep.iter()).filter(|r| matches!(r, Re::Alt(..))) {
+                let mut alts: Vec<&Re> = vec![];
+                flatten(r, &mut alts);
+                let parts: Option<Vec<String>> = alts.iter().map(|a| render(&Re::Cat(Box::new(Re::Lit(b'/')), Box::new((*a).clone())), syn).map(|s| format!("\\.{s}"))).collect();
+                if let Some(parts) = parts {
+                    let whole = Re::Cat(Box::new(Re::Lit(b'.')), Box::new(Re::Cat(Box::new(Re::Lit(b'/')), Box::new(r.clone()))));
+                    rendered.push((whole, parts.join(alt_word)));
+                }
+            }
+        }
         for prim in ["-regex", "-iregex"] {
             let mut places = vec![Place::Before, Place::InPrecedingParens, Place::BeforeParens, Place::TwoTypes];
             if tname == "emacs" {
@@ -494,6 +521,54 @@ fn odd_name_slice(ctx: &mut Ctx) {
                     );
                 }
             }
+        }
+    }
+    // posix-basic and its two other names ed and sed: no alternation; `.` and [^x] match a newline; and
+    // the three names select one syntax, so every pattern selects the same paths under each of them
+    std::fs::write(w.join("a+b"), b"").unwrap();
+    std::fs::write(w.join("aab"), b"").unwrap();
+    let mut by_name: Vec<(String, Vec<Vec<u8>>)> = vec![];
+    for tname in ["posix-basic", "ed", "sed"] {
+        let mut outs: Vec<Vec<u8>> = vec![];
+        for prim in ["-regex", "-iregex"] {
+            let cases: Vec<(Vec<String>, Option<usize>, &str)> = vec![
+                (vec!["!".into(), "-name".into(), "a?b".into(), prim.into(), ".*".into()], Some(5), "`.*` must select every path without a newline, valid UTF-8 or not"),
+                (vec![prim.into(), "\\./a[^x]b".into()], Some(3), "[^x] matches a newline (and + and a)"),
+                (vec![prim.into(), "\\./a.b".into()], Some(4), "`.` matches a newline in the POSIX syntaxes"),
+                (vec![prim.into(), "\\./a\\([^x]b\\)*".into()], Some(3), "./a([^x]b)* selects ./a<NL>b, ./a+b and ./aab (./axb has an x)"),
+                (vec![prim.into(), "\\./d.".into()], Some(1), "`.` stands for the undecodable byte of ./d\\xfe"),
+                (vec![prim.into(), "\\./a\\+b".into()], None, "same selection under the three names"),
+                (vec![prim.into(), "\\./a\\?b".into()], None, "same selection under the three names"),
+                (vec![prim.into(), "\\./a\\{1,2\\}b".into()], Some(1), "interval"),
+                (vec![prim.into(), "\\./a*+b".into()], Some(1), "+ is an ordinary character"),
+            ];
+            for (expr, want, why) in cases {
+                let mut args: Vec<&str> = vec![".", "-sorted", "-regextype", tname];
+                args.extend(expr.iter().map(|s| s.as_str()));
+                args.push("-print0");
+                let (n, o) = count(&args);
+                ctx.rep.evaluations += 1;
+                ctx.rep.nontrivial += 1;
+                ctx.rep.count("odd_name_cases", 1);
+                if want.is_some_and(|w| w != n) || o.code != Ok(0) {
+                    ctx.rep.violation(
+                        &format!("C17 names that are not valid UTF-8 or hold a newline: wrong selection [{prim} {tname}]"),
+                        format!("find {:?}: {n} entries selected, expected {want:?} ({why}); selected {:?}; status {:?}", args, String::from_utf8_lossy(&o.out).replace('\0', " | "), o.code),
+                        json!({"prop":"C17","odd_names":true}),
+                    );
+                }
+                outs.push(o.out);
+            }
+        }
+        by_name.push((tname.to_string(), outs));
+    }
+    for (tname, outs) in &by_name[1..] {
+        if let Some(k) = outs.iter().zip(&by_name[0].1).position(|(a, b)| a != b) {
+            ctx.rep.violation(
+                &format!("C17 -regextype {tname} does not select the syntax of posix-basic"),
+                format!("case #{k} of the POSIX-basic family: posix-basic selects {:?}, {tname} selects {:?}", String::from_utf8_lossy(&by_name[0].1[k]).replace('\0', " | "), String::from_utf8_lossy(&outs[k]).replace('\0', " | ")),
+                json!({"prop":"C17","odd_names":true}),
+            );
         }
     }
     let _ = std::env::set_current_dir(&ctx.sbx);
